@@ -82,7 +82,9 @@ S.update(S2)
 for key in sys.argv[1:]:
     p, n = key.split('-')
     src = '/tmp/wt_%s/mutants/%s' % (p, n)
-    if int(n) > 14:
+    if int(n) > 16:
+        src = '/tmp/wt7_%s/mutants/%d' % (p, int(n) - 16)  # seventh wave: delivered as 1..2, kept as 17..18
+    elif int(n) > 14:
         src = '/tmp/wt_%s/mutants/%d' % (p, int(n) - 14)  # sixth wave: delivered as 1..2, kept as 15..16
     elif int(n) > 12:
         src = '/tmp/wt_%s/mutants/%d' % (p, int(n) - 12)  # fifth wave: delivered as 1..2, kept as 13..14
